@@ -153,6 +153,7 @@ def reduction_data(draw, min_groups=2, max_groups=3, pairs="free", moments=None)
         "index": draw(st.sampled_from(["default", "default", "offset"])),
         "tie": draw(st.integers(0, 1)),
         "swn": draw(st.booleans()),  # learner takes its weights under another keyword (sample_weight_name)
+        "nested": draw(st.integers(0, 2)) == 0,  # GridSearch: learner whose fitted state lives in a nested container
         "user_grid": draw(st.integers(0, 3)) == 0,  # GridSearch: also run with the grid supplied through grid=
     }
 
